@@ -104,6 +104,18 @@ def resolution_and_retarget_cases(ctx):
                 return v[step % len(v)]
             return tuple(expect(x, step) for x in sh[1])
         obj = build(shape)
+        # the tuple as it is, or as the VALUE OF A PATTERN (what an event dictionary makes of it): resolved the same
+        holder = r.choice(["direct", "direct", "PConstant", "PSequence-item", "PRef", "Pattern.pattern", "PDict-value"])
+        if holder == "PConstant":
+            obj = iso.PConstant(obj)
+        elif holder == "PSequence-item":
+            obj = iso.PSequence([obj])
+        elif holder == "PRef":
+            obj = iso.PRef(iso.PConstant(obj))
+        elif holder == "Pattern.pattern":
+            obj = iso.Pattern.pattern(obj)
+        elif holder == "PDict-value":
+            obj = iso.PDict({"x": obj})["x"]
         bad = None
         for step in range(r.randint(2, 5)):
             got = canon(iso.Pattern.value(obj))
@@ -113,9 +125,10 @@ def resolution_and_retarget_cases(ctx):
                 break
         ctx.case(("resolve", repr(shape)), nontrivial=bool(streams), validated=False,
                  sample={"nested_tuple": repr(shape)[:200]} if i < 2 else None)
-        ctx.count("resolve:patterns=%d" % min(len(streams), 4))
+        ctx.count("resolve:patterns=%d" % min(len(streams), 4), "resolve:held-by:" + holder)
         if bad:
-            ctx.violation("C12:value-resolves-recursively", bad, {"suite": "resolve", "shape": repr(shape), "streams": streams})
+            ctx.violation("C12:value-resolves-recursively", bad + " (tuple held by: %s)" % holder,
+                          {"suite": "resolve", "shape": repr(shape), "streams": streams, "holder": holder})
     # (2)
     for i in range(ctx.scale(150, 4000)):
         a = [r.randint(0, 50) for _ in range(r.randint(1, 4))]
